@@ -202,6 +202,8 @@ def run(ctx):
     rule_key_source(ctx)
     rule_profiles(ctx)
     rule_keys_table(ctx)
+    from ..rules import extra as X
+    X.rule_groupby_sorted(ctx, (PS, VS, KI))
     ctx.rule("F8b", "no int()/float() conversion of a value that is definitely a rank>=1 array (np.where(..)[0], masks, ...)")
     n = 0
     for modname in (PS, VS, KI):
